@@ -98,6 +98,7 @@ def _post(call):
     tol = 1e-9 * scale / max(math.sin(step), 1e-3) + 1e-12 * scale
     # infer the grid: find theta0 and orientation from the first non-degenerate edge
     found = None
+    candidates = []
     for k in range(N):
         dvec = W[(k + 1) % N] - W[k]
         if np.hypot(*dvec) > 1e-7 * scale:
@@ -108,34 +109,38 @@ def _post(call):
                 lo, hi = _bracket(x * nrm[0] + y * nrm[1], alpha)
                 off = float(W[k] @ nrm)
                 if lo - tol * 1e3 <= off <= hi + tol * 1e3:
-                    found = (k, th)
-                    break
-            if found:
+                    found = found or (k, th)
+                    candidates.append((k, th))
+            if len(candidates) >= 16:
                 break
     if not found:
         c.check("c03.vertex-on-both-tangents", False, "no edge of the polygon is a (1-alpha)-quantile tangent line of the sample", **info)
         return
-    k0, th0 = found
+    # under heavy ties (a sample rounded to a few integer levels) the bracket of an edge is wide and the FIRST matching
+    # edge may suggest a wrong grid: every candidate anchor is tried, the polygon is judged with the best one
     best = None
-    for orient in (-1, +1):
-        worst = 0.0
-        wit = None
-        nbad = 0
-        # explicit: edge e_j = (W[j] -> W[j+1]) has normal phi_j = th0 + orient*(j-k0)*step
-        for j in range(N):
-            for phi in (th0 + orient * (j - k0) * step, th0 + orient * (j - 1 - k0) * step):
-                nx_, ny_ = math.cos(phi), math.sin(phi)
-                lo, hi = _bracket(x * nx_ + y * ny_, alpha)
-                off = W[j, 0] * nx_ + W[j, 1] * ny_
-                dev = max(lo - off, off - hi, 0.0)
-                if dev > tol:
-                    nbad += 1
-                    if dev > worst:
-                        worst = dev
-                        wit = {"vertex_index": j, "vertex": W[j].tolist(), "normal_deg": math.degrees(phi) % 360, "offset": off, "quantile_bracket": [lo, hi]}
-        if best is None or nbad < best[0]:
-            best = (nbad, worst, wit, orient)
-    nbad, worst, wit, orient = best
+    for k0, th0 in candidates:
+      if best is not None and best[0] == 0:
+        break
+      for orient in (-1, +1):
+          worst = 0.0
+          wit = None
+          nbad = 0
+          # explicit: edge e_j = (W[j] -> W[j+1]) has normal phi_j = th0 + orient*(j-k0)*step
+          for j in range(N):
+              for phi in (th0 + orient * (j - k0) * step, th0 + orient * (j - 1 - k0) * step):
+                  nx_, ny_ = math.cos(phi), math.sin(phi)
+                  lo, hi = _bracket(x * nx_ + y * ny_, alpha)
+                  off = W[j, 0] * nx_ + W[j, 1] * ny_
+                  dev = max(lo - off, off - hi, 0.0)
+                  if dev > tol:
+                      nbad += 1
+                      if dev > worst:
+                          worst = dev
+                          wit = {"vertex_index": j, "vertex": W[j].tolist(), "normal_deg": math.degrees(phi) % 360, "offset": off, "quantile_bracket": [lo, hi]}
+          if best is None or nbad < best[0]:
+              best = (nbad, worst, wit, orient, k0, th0)
+    nbad, worst, wit, orient, k0, th0 = best
     c.count("c03.vertices-judged", N)
     mech = None
     if nbad:
